@@ -132,6 +132,12 @@ impl TomlConverter {
 
     fn write(&self, v: &Val, w: &mut dyn Write) -> ConvertResult {
         let toml_val = self.convert_value(v)?;
+        if !toml_val.is_table() {
+            // A toml document is a table. Anything else serializes to text
+            // that is not valid toml.
+            let err = SimpleError::new("Only tuples can be converted to a Toml document!");
+            return Err(Box::new(err));
+        }
         let toml_bytes = toml::ser::to_string_pretty(&toml_val)?;
         write!(w, "{}", toml_bytes)?;
         Ok(())
